@@ -188,6 +188,7 @@ def qcow2_spec(draw, tier="quick", layer=0, size_clusters=None, cluster_bits=Non
                     "tiny": 512}[rel]
             spec["backing"] = {"name": name, "format": fmt, "length": blen}
             spec["backing_mode"] = draw(st.sampled_from(["object", "object", "object", "allow_none"]))
+            spec["backing_name_at_end"] = draw(st.sampled_from([False, False, True]))
             budget_bytes -= need + 16
     exts = []
     if draw(st.integers(0, 3)) == 0:
